@@ -90,6 +90,13 @@ CHECKS = {
         note="Kernel only. NOT decided: which frame is on top at each use site across a whole parse (grammar-driven; statement/document builder push/pop sites other than the quantifier callbacks and expr_dot are not under contract), process-qualified names with P's arguments substituted (type_t::rename/subst), declaration-before-use as a property of the grammar's callback order. Trusted: names as identities, std::map as a last-writer table over 4 names, arena frames in part 2 (their behaviour is the contract proved in part 1), induction over the parent chain.",
         technique="one-level induction step on sliced real code with a ghost answer for the enclosing frame; scope-depth/frame contracts on sliced builder callbacks (assume/call/assert harnesses in CBMC); native replay through parse_XTA / parse_XML_buffer",
     ),
+    "C08": dict(
+        category="proof",
+        text="Kernel of the statement: the REAL constructors of document.cpp - declarations_t::add_function, template_t::add_location / add_branchpoint / add_edge, Document::add_variable (three overloads), add_template, add_dynamic_template, add_instance - executed on documents with an arbitrary well-formed prefix. Each keeps the representation invariant: the new object is the user object of its own symbol (name, type, owning frame as given) - also on the duplicate-name path, where the constructor throws AFTER registering; duplicates are reported exactly when the name is already declared in that frame; location, branchpoint and edge numbers equal the previous container size (dense, source order) and earlier objects keep theirs; an edge gets exactly one source and one target, each the object of the given symbol and of the kind the symbol's type says, with the controllable flag and action name recorded; a template is its own template, has all parameters unbound, an instance type over its parameter frame (arity = unbound) and a local frame nested in the global frame that starts with the parameters; an instance lists its new unbound parameters first, then the instantiated template's, has a type whose arity equals its number of unbound parameters, maps exactly the bound parameters - each to its argument - and refers to the instantiated template.",
+        design_ref="DESIGN.md section 4, C08",
+        note="Kernel only. NOT decided: that nothing later overwrites uid/user pointers; that edge end points belong to the edge's own template (depends on resolve at the call site in the builders); add_process, add_LSC_instance; 'an accepted TA template has an initial location'; that every parse path goes through these constructors. Trusted: stand-in struct declarations for document.h (same member names), node-based list/deque stub (elements never move), arena frames/symbols (contracts of C07), type constructors over frames (arity = frame size at construction).",
+        technique="sliced real constructors executed on symbolic well-formed documents in CBMC; representation-invariant postconditions as assume/call/assert harnesses; native replay through parse_XTA on valid and invalid models",
+    ),
 }
 
 NOT_APPLICABLE = {
